@@ -643,6 +643,7 @@ class StringDdvI(Interface):
 
 class StringSdvI(Interface):
     target_class = StringSdv
+    attrs = {'references': Any_}
     methods = {'resolve': Method(returns=Iface(StringDdvI), pure=True)}
 
 
@@ -902,3 +903,294 @@ M.contract(P_PARSE + ':_PathSdvOfAbsPathAndSuffixSdv.__init__',
                        path_suffix_sdv=Iface(PartSdvI)), inline=True,
            raises={ValueError: {'when': lambda abs_path_root: not is_abs(den(abs_path_root))}},
            ensures={'root-is-absolute': lambda self: is_abs(den(self.abs_path_root))}, raises_only=())
+
+
+# ============================================================================== restrictions on path symbols
+
+from exactly_lib.type_val_deps.types.path import references as path_references
+from exactly_lib.type_val_deps.types.path.rel_opts_configuration import (RelOptionsConfiguration,
+                                                                         RelOptionArgumentConfiguration)
+from exactly_lib.section_document.element_parsers.instruction_parser_exceptions import \
+    SingleInstructionInvalidArgumentException
+from exactly_lib.section_document.element_parsers.token_stream import TokenStream, TokenSyntaxError, LookAheadState
+from exactly_lib.util.parse.token import Token, TokenType
+
+P_VR = 'exactly_lib.type_val_deps.sym_ref.w_str_rend_restrictions.value_restrictions'
+P_RR = 'exactly_lib.type_val_deps.sym_ref.w_str_rend_restrictions.reference_restrictions'
+P_PR = 'exactly_lib.impls.types.path.parse_relativity'
+
+# rendering of error messages is outside the property: the renderers return some message object
+M.contract('exactly_lib.symbol.err_msg.error_messages:invalid_type_msg', trusted=True, returns=Any_,
+           params=dict(expected_value_types=Any_, symbol_name=Str, container_of_actual=Any_))
+M.contract('exactly_lib.type_val_deps.sym_ref.w_str_rend_restrictions.error_messages:unsatisfied_path_relativity',
+           trusted=True, returns=Str,
+           params=dict(symbol_name=Str, container=Any_, accepted=Any_, actual_relativity=Any_))
+M.contract('exactly_lib.common.report_rendering.text_docs:single_pre_formatted_line_object', trusted=True,
+           returns=Any_, params=dict(x=Any_, is_line_ended=Bool))
+M.contract(P_PR + ':_valid_options_info_lines', trusted=True, returns=FixedList(), params=dict(options=Any_))
+M.trust('error-message renderers (invalid_type_msg, unsatisfied_path_relativity, single_pre_formatted_line_object, '
+        '_valid_options_info_lines) return a message object and have no other effect (messages are outside the property)')
+
+
+def satisfies_path_restriction(accepted, symbols, container):
+    """the documented meaning of a path-relativity restriction: the symbol is a path and the relativity of the
+    path it RESOLVES to -- through however many definitions -- is accepted"""
+    if container.value_type is not ValueType.PATH:
+        return False
+    return accepts(accepted, rel_view(container.sdv.resolve(symbols)))
+
+
+PATH_RESTRICTION = Inst(value_restrictions.PathAndRelativityRestriction, _accepted=VARIANTS)
+
+M.contract(P_VR + ':PathAndRelativityRestriction.is_satisfied_by',
+           params=dict(self=PATH_RESTRICTION, symbol_table=SYMBOLS, symbol_name=Str, container=CONTAINER),
+           returns=Opt(Any_),
+           ensures={'satisfied iff a path whose resolved relativity is accepted':
+                        lambda self, symbol_table, container, result:
+                        iff(result is None, satisfies_path_restriction(self._accepted, symbol_table, container))},
+           raises_only=())
+
+M.contract(P_RR + ':ReferenceRestrictionsOnDirectAndIndirect.check_indirect', trusted=True, returns=Opt(Any_),
+           params=dict(self=Any_, symbol_table=Any_, references=Any_))
+M.trust('ReferenceRestrictionsOnDirectAndIndirect.check_indirect (restrictions on indirectly referenced symbols of a '
+        'STRING reference) returns None or a failure: verified by C08, not used for path symbols (indirect is None)')
+
+DIRECT_PATH_RESTRICTIONS = Inst(reference_restrictions.ReferenceRestrictionsOnDirectAndIndirect,
+                                _direct=PATH_RESTRICTION, _indirect=Const(None),
+                                _meaning_of_failure_of_indirect_reference=Const(None))
+
+M.contract(P_RR + ':ReferenceRestrictionsOnDirectAndIndirect.is_satisfied_by',
+           params=dict(self=DIRECT_PATH_RESTRICTIONS, symbol_table=SYMBOLS, symbol_name=Str, container=CONTAINER),
+           inline=True,
+           ensures={'satisfied iff a path whose resolved relativity is accepted':
+                        lambda self, symbol_table, container, result:
+                        iff(result is None,
+                            satisfies_path_restriction(self._direct._accepted, symbol_table, container))},
+           raises_only=())
+
+M.contract(P_PR + ':reference_restrictions_for_path_symbol', params=dict(accepted_relativity_variants=VARIANTS),
+           inline=True,
+           ensures={'path-restriction-on-the-given-variants': lambda accepted_relativity_variants, result:
+           is_path_restriction_on(result, accepted_relativity_variants)}, raises_only=())
+M.contract('exactly_lib.type_val_deps.types.path.references:path_relativity_restriction',
+           params=dict(accepted_relativity_variants=VARIANTS), inline=True,
+           ensures={'path-restriction-on-the-given-variants': lambda accepted_relativity_variants, result:
+           is_path_restriction_on(result, accepted_relativity_variants)}, raises_only=())
+
+
+def is_path_restriction_on(restrictions, variants):
+    """the reference restriction that `ReferenceRestrictionsOnDirectAndIndirect.is_satisfied_by` is proved about"""
+    return isinstance(restrictions, reference_restrictions.ReferenceRestrictionsOnDirectAndIndirect) \
+        and isinstance(restrictions._direct, value_restrictions.PathAndRelativityRestriction) \
+        and restrictions._direct._accepted is variants \
+        and restrictions._indirect is None
+
+
+def is_path_or_string_restriction_on(restrictions, variants):
+    return isinstance(restrictions, reference_restrictions.OrReferenceRestrictions) \
+        and len(restrictions._parts) == 2 \
+        and restrictions._parts[0].selector is WithStrRenderingType.PATH \
+        and is_path_restriction_on(restrictions._parts[0].restriction, variants) \
+        and restrictions._parts[1].selector is WithStrRenderingType.STRING \
+        and restrictions._parts[1].restriction is path_references.PATH_COMPONENT_STRING_REFERENCES_RESTRICTION
+
+
+from exactly_lib.symbol.value_type import WithStrRenderingType
+
+M.contract('exactly_lib.type_val_deps.types.path.references:path_or_string_reference_restrictions',
+           params=dict(accepted_relativity_variants=VARIANTS), inline=True,
+           ensures={'path: restricted to the variants; string: a path component': lambda accepted_relativity_variants,
+                                                                                          result:
+           is_path_or_string_restriction_on(result, accepted_relativity_variants)}, raises_only=())
+
+
+def _mk_or_restrictions(interp, name):
+    return interp.call(path_references.path_or_string_reference_restrictions,
+                       [VARIANTS.make(interp, name + '.accepted')], {})
+
+
+def accepted_of_or(restrictions):
+    return restrictions._parts[0].restriction._direct._accepted
+
+
+M.contract(P_RR + ':OrReferenceRestrictions.is_satisfied_by',
+           params=dict(self=Custom(_mk_or_restrictions), symbol_table=SYMBOLS, symbol_name=Str, container=CONTAINER),
+           returns=Opt(Any_),
+           ensures={
+               'path symbol: satisfied iff its resolved relativity is accepted':
+                   lambda self, symbol_table, container, result:
+                   implies(container.value_type is ValueType.PATH,
+                           iff(result is None,
+                               satisfies_path_restriction(accepted_of_or(self), symbol_table, container))),
+               'neither path nor string: rejected': lambda self, container, result:
+               implies(container.value_type is not ValueType.PATH and container.value_type is not ValueType.STRING,
+                       result is not None),
+           }, raises_only=())
+
+
+# ============================================================================== parsing of the relativity
+# TokenStream: n tokens, the first `pos` of which are consumed (pos is concrete: every consume() advances by one);
+# after the last token the lexer may report a syntax error.
+
+TOKEN = Inst(Token, _tuple=[EnumOf(TokenType), Str, Str],
+             # TokenStream.consume reads s_source[0]: the source string of a token is not empty
+             _invariant=lambda self: len(self[2]) > 0)
+
+
+def _ts_token(interp, o, k):
+    toks = o._pv_attrs.setdefault('__tokens__', {})
+    if k not in toks:
+        toks[k] = TOKEN.make(interp, '%s.token[%d]' % (o._pv_uid, k))
+    return toks[k]
+
+
+def _ts_refresh(interp, o):
+    a = o._pv_attrs
+    pos = a['pos']
+    n = interp.getattr(o, 'n')
+    err = interp.getattr(o, 'syntax_error_after_last_token')
+    has = to_z3(n) > pos
+    a['is_null'] = wrap(z3.Not(has))
+    a['head'] = SOpt(z3.Not(has), _ts_token(interp, o, pos))
+    a['look_ahead_state'] = SChoice(z3.If(has, 0, z3.If(to_z3(err), 2, 1)),
+                                    [LookAheadState.HAS_TOKEN, LookAheadState.NULL, LookAheadState.SYNTAX_ERROR])
+    a['remaining_part_of_current_line'] = Str.make(interp, '%s.remaining_line@%d' % (o._pv_uid, pos))
+    a['remaining_part_of_current_line_is_empty'] = Bool.make(interp, '%s.remaining_line_is_empty@%d' % (o._pv_uid, pos))
+    a['head_syntax_error_description'] = Str.make(interp, '%s.syntax_error' % o._pv_uid)
+
+
+def _ts_consume(interp, self, args, kwargs):
+    a = self._pv_attrs
+    n = interp.getattr(self, 'n')
+    if interp.branch(wrap(to_z3(n) > a['pos'])):
+        tok = _ts_token(interp, self, a['pos'])
+        a['pos'] += 1
+        _ts_refresh(interp, self)
+        return tok
+    if interp.branch(interp.getattr(self, 'syntax_error_after_last_token')):
+        raise PyRaise(TokenSyntaxError('syntax error'))
+    return None
+
+
+class TokenStreamI(Interface):
+    target_class = TokenStream
+    attrs = {'n': Nat, 'syntax_error_after_last_token': Bool, 'pos': Const(0)}
+    methods = {'consume': Method(model=_ts_consume)}
+
+
+def _mk_stream(interp, name):
+    o = new_opaque(interp, TokenStreamI, name)
+    interp.getattr(o, 'pos')
+    _ts_refresh(interp, o)
+    return o
+
+
+def _token_at(interp, args, kwargs):
+    return _ts_token(interp, args[0], args[1])
+
+
+def token_at(stream, k):
+    """the k-th token of the stream (spec level)"""
+    raise NotImplementedError('proof-level only')
+
+
+M.model(token_at, _token_at)
+STREAM = Custom(_mk_stream)
+M.trust('TokenStream is seen as a sequence of n tokens with one token of look-ahead and an optional lexing error after '
+        'the last token (tokenisation itself: C09)')
+
+# the documented option names (reference manual, "relativity options")
+OPTION_OF = {'-rel-act': RelOptionType.REL_ACT, '-rel-tmp': RelOptionType.REL_TMP,
+             '-rel-result': RelOptionType.REL_RESULT, '-rel-cd': RelOptionType.REL_CWD,
+             '-rel-home': RelOptionType.REL_HDS_CASE, '-rel-act-home': RelOptionType.REL_HDS_ACT}
+
+
+def named_relativity(s):
+    for k, r in OPTION_OF.items():
+        if s == k:
+            return r
+    return None
+
+
+OPTIONS_CONF = Inst(RelOptionsConfiguration, _tuple=[VARIANTS, REL])
+
+M.contract(P_PR + ':_resolve_relativity_option_type', params=dict(option_argument=Str), returns=REL,
+           raises={SingleInstructionInvalidArgumentException: {
+               'when': lambda option_argument: named_relativity(option_argument) is None}},
+           ensures={'the-documented-option': lambda option_argument, result:
+           result is named_relativity(option_argument)}, raises_only=())
+
+
+def head_is(source, k):
+    return source.n > k
+
+
+M.contract(P_PR + ':_parse_rel_option_type', params=dict(options=OPTIONS_CONF, source=STREAM), returns=REL,
+           requires=lambda source: not source.is_null,
+           old=lambda source: source.pos,
+           raises={SingleInstructionInvalidArgumentException: {
+               'when': lambda options, source:
+               named_relativity(source.head.string) is None
+               or named_relativity(source.head.string) not in options.accepted_options,
+               'ensures': lambda source, old: source.pos == old}},
+           ensures={
+               'the named relativity, which is accepted': lambda options, source, result, old:
+               result is named_relativity(token_at(source, old).string) and result in options.accepted_options,
+               'option consumed': lambda source, old: source.pos == old + 1,
+           }, raises_only=())
+
+M.contract('exactly_lib.symbol.symbol_syntax:is_symbol_name', trusted=True, returns=Bool, params=dict(s=Str))
+M.trust('symbol_syntax.is_symbol_name decides the lexical form of a symbol name (C08)')
+
+M.contract(P_PR + ':_try_parse_rel_symbol_option', params=dict(options=OPTIONS_CONF, source=STREAM), inline=True,
+           requires=lambda source: not source.is_null,
+           old=lambda source: source.pos,
+           may_raise=(SingleInstructionInvalidArgumentException,),
+           ensures={
+               'not -rel: nothing consumed': lambda source, result, old:
+               implies(token_at(source, old).string != '-rel', result is None and source.pos == old),
+               '-rel SYMBOL: reference restricted to the accepted relativities of the argument':
+                   lambda options, source, result, old:
+                   token_at(source, old).string != '-rel'
+                   or (result is not None and source.pos == old + 2
+                       and result.name == token_at(source, old + 1).string
+                       and is_path_restriction_on(result.restrictions, options.accepted_relativity_variants)),
+           }, raises_only=())
+
+M.contract(P_PR + ':_parse_rel_source_file', params=dict(source=STREAM), returns=Bool, inline=True,
+           requires=lambda source: not source.is_null,
+           old=lambda source: source.pos,
+           ensures={'-rel-here consumed': lambda source, result, old:
+           iff(result, token_at(source, old).string == '-rel-here') and source.pos == (old + 1 if result else old)},
+           raises_only=())
+
+
+def _is_rel(x):
+    return isinstance(x, RelOptionType)
+
+
+M.contract(P_PR + ':parse_explicit_relativity_info',
+           params=dict(options=OPTIONS_CONF, source_file_location=Opt(PATH), source=STREAM),
+           old=lambda source: source.pos,
+           raises={SingleInstructionInvalidArgumentException: {
+               'ensures': lambda source, old:
+               # only an option can be refused
+               token_at(source, old).source_string[0] == '-'}},
+           ensures={
+               'no option: None, nothing consumed': lambda source, result, old:
+               implies(source.n <= old or token_at(source, old).source_string[0] != '-',
+                       result is None and source.pos == old),
+               'an option of the documented table: accepted by the argument': lambda options, source, result, old:
+               implies(_is_rel(result),
+                       result is named_relativity(token_at(source, old).string)
+                       and result in options.accepted_options and source.pos == old + 1),
+               '-rel SYMBOL: restricted to the accepted relativities of the argument':
+                   lambda options, source, result, old:
+                   (not isinstance(result, SymbolReference))
+                   or (token_at(source, old).string == '-rel' and source.pos == old + 2
+                       and result.name == token_at(source, old + 1).string
+                       and is_path_restriction_on(result.restrictions, options.accepted_relativity_variants)),
+               'nothing else': lambda source_file_location, result:
+               result is None or _is_rel(result) or isinstance(result, SymbolReference)
+               or (source_file_location is not None and result is source_file_location),
+           }, raises_only=())
